@@ -17,8 +17,9 @@ CONSTANTS Family,       \* "tri" | "pair" | "pairB" | "nest" | "nest2" | "isl2" 
           Stride, Offset,   \* sub-sampling of the family (Stride = 1: everything)
           REPLAY        \* print REPLAY lines
 
-VARIABLE labs
-mcvars == <<svars, labs>>
+VARIABLES labs,
+          strictcls     \* does the TRANSCRIPTION satisfy the strict reading of C14's last clause (no stale prev_in_result) on this input?
+mcvars == <<svars, labs, strictcls>>
 
 Pts == {<<L*x, L*y>> : x \in 0..N, y \in 0..N}
 Tris == { t \in Pts \X Pts \X Pts : /\ Orient(t[1], t[2], t[3]) > 0 /\ Lex(t[1], t[2]) /\ Lex(t[1], t[3]) }
@@ -72,7 +73,7 @@ FrameHoles(a, a2, a3) == << <<Frame[1][1], Rev(a), Rev(a2), Rev(a3)>> >>
 FileInputs == ndJsonDeserialize(IOEnv.MCINPUTS)
 
 Init ==
-  /\ labs = <<>>
+  /\ labs = <<>> /\ strictcls = TRUE
   /\ CASE Family = "tri"  -> \E a \in Tris : \E b \in Tris : Sel2(a, b) /\ \E o \in Ops : SInit(TriMp(a), TriMp(b), o)
        [] Family = "pair" -> \E a \in Tris : \E a2 \in Tris : \E b \in Tris :
                                 Lex(a[1], a2[1]) /\ Sel3(a, a2, b) /\ Compatible(a, a2)
@@ -99,8 +100,6 @@ Init ==
        [] Family = "quad" -> \E a \in Quads : \E b \in Tris : Sel2(a, b) /\ \E o \in Ops : SInit(QuadMp(a), TriMp(b), o)
        [] Family = "file" -> \E i \in 1..Len(FileInputs) : SInit(FileInputs[i].A, FileInputs[i].B, FileInputs[i].op)
 
-Next == SNext /\ labs' = Append(labs, lab')
-Spec == Init /\ [][Next]_mcvars
 
 \* ---------------------------------------------------------------- M |= P
 Done == pc = "done"
@@ -134,6 +133,10 @@ RestSeq == SetToSortSeq(Q, LAMBDA i, j : EvBefore(E, i, j))
 SubRec == [outcome |-> "ok", popped |-> Len(sorted), sorted |-> sorted, rest |-> RestSeq, ev |-> [i \in 1..Len(E) |-> Tup(i)]]
 BoxRec(mp) == LET b == BoxOf(mp) IN IF b = <<>> THEN <<>> ELSE <<b[1], b[2], b[3], b[4], 0>>
 FqRec == [sbb |-> BoxRec(A), cbb |-> BoxRec(B), ev |-> <<>>]
+\* (strictcls is fixed when the sweep has ended, pc = "order": the moment the public `subdivide` returns)
+Next == /\ SNext /\ labs' = Append(labs, lab')
+        /\ strictcls' = IF pc = "order" /\ UseShortcuts THEN ClassificationOK(op, SubRec, FqRec, A, B, FALSE) ELSE strictcls
+Spec == Init /\ [][Next]_mcvars
 AtSweepEnd == pc \in {"order", "connect", "done"} /\ ~TookShortcut /\ UseShortcuts
 M_Subdivision == (pc = "order" /\ UseShortcuts) => SubdivisionOK(op, SubRec, A, B, TRUE)
 M_Classification == (pc = "order" /\ UseShortcuts) => ClassificationOK(op, SubRec, FqRec, A, B, TRUE)
@@ -146,6 +149,6 @@ M_StatusLineSorted ==
 
 \* ---------------------------------------------------------------- replay
 ReplayLine == (REPLAY /\ Done) =>
-   PrintT(<<"REPLAY", ToJson([A |-> A, B |-> B, op |-> op, labs |-> labs, out |-> out,
+   PrintT(<<"REPLAY", ToJson([A |-> A, B |-> B, op |-> op, labs |-> labs, out |-> out, strictcls |-> strictcls,
                                sorted |-> [k \in 1..Len(sorted) |-> Tup(sorted[k])], ev |-> [i \in 1..Len(E) |-> Tup(i)]])>>)
 =============================================================================
